@@ -95,8 +95,8 @@ ST == INSTANCE HiveStats
 StatsDivg(Hh, Hst, e) ==
   IF e.k = "stats" THEN ST!RowOK(e)
   ELSE IF e.k = "final" THEN ST!SummaryOK(Hst, Hh.adds, Hh.cancels, e)
-  ELSE IF e.k = "stats_abort" THEN {<<"Stats", "handler_raised", e.error, e.n>>}
-  ELSE IF e.k = "stats_file" THEN {<<"Stats", "file_reads_back", e.what, e.rows>>}
+  ELSE IF e.k = "stats_abort" THEN {<<"Stats", "handler_raised", e.error, ToString(e.n)>>}
+  ELSE IF e.k = "stats_file" THEN {<<"Stats", "file_reads_back", e.what, ToString(e.rows)>>}
   ELSE {}
 
 Key(v) == <<v[1], v[2], v[3]>>
